@@ -8,6 +8,13 @@
    checked by the plugin, which also replays the heap dumps (CHIBI_VERIF_TRACE / CHIBI_VERIF_DUMP hooks of gc.c).
    input : one history per line:  <nslots> <op>;<op>;...   ops: K,i  H,i  C,i,a,b  E,i,k,v  D,i  G  B,i,n  O,i
            (B: a vector of n slots, an ordinary object for the model; O: a stream port on /dev/null, as in c16_hist.scm)
+           round 3: N (first op only: throw the context away and make a FRESH one, so that the history's first ephemeron is
+           the first ephemeron of the context: SEXP_G_WEAK_OBJECTS_PRESENT is still off);  I,i,c  R[i] := immediate number c
+           (1 fixnum 17, 2 #t, 3 #\a, 4 '(), 5 fixnum 0; printed i<c> as key / value of an ephemeron, #f inside pairs);
+           F,i fileno on /dev/null;  S,i,j socketpair(AF_UNIX, SOCK_STREAM): two filenos;  Q,i,j pipe;  P,i,f / W,i,f input /
+           output port on fileno R[f];  PS,i,f / WS,i,f the same with the shutdown flag (as (chibi net) open-net-io);
+           X,i close-port;  Z,i,j write a line through output port R[j], read it through input port R[i]
+           (observation Zok / Zbad:<why> / Zskip);  after every G also |own=<slot>:<ok|bad>,... as in c16_hist.scm
    output: H <n> <observation>/<observation>...      one observation per G, same text as harness/c16_hist.scm:
                e<id>=<broken>,<key fingerprint>,<value fingerprint>;...|fds=<open descriptors - baseline>|gc=<number of the G's first collection>
            A <n> <id>:<heap index>:<offset>,...       address of every object the history allocated
@@ -16,6 +23,10 @@
 #include <stdlib.h>
 #include <string.h>
 #include <dirent.h>
+#include <unistd.h>
+#include <fcntl.h>
+#include <poll.h>
+#include <sys/socket.h>
 #include <chibi/eval.h>
 
 #define MAXSLOTS 256
@@ -35,6 +46,42 @@ static long fd_count (void) {
   return n;
 }
 static long fd_base;
+static unsigned long ctx_size;
+static int own_num[MAXSLOTS]; static char own_lnk[MAXSLOTS][64]; static int own_pair[MAXSLOTS]; static int npairs, zn;
+
+static void new_context (void) {
+  if (ctx) sexp_destroy_context(ctx);
+  ctx = sexp_make_context(NULL, ctx_size, 0);
+  if (!ctx || sexp_exceptionp(ctx)) { fprintf(stderr, "no context\n"); exit(2); }
+  R = sexp_make_vector(ctx, sexp_make_fixnum(MAXSLOTS), SEXP_FALSE); sexp_preserve_object(ctx, R);
+  OBS = sexp_make_vector(ctx, sexp_make_fixnum(MAXOBS), SEXP_FALSE); sexp_preserve_object(ctx, OBS);
+}
+
+static void fd_link (int n, char *buf) {
+  char path[64]; ssize_t k;
+  snprintf(path, sizeof path, "/proc/self/fd/%d", n);
+  k = readlink(path, buf, 63);
+  buf[k < 0 ? 0 : k] = 0;
+}
+static void set_owner (long i, int n, int pair) {
+  if (i < 0 || i >= MAXSLOTS) return;
+  own_num[i] = n; own_pair[i] = pair; fd_link(n, own_lnk[i]);
+}
+static sexp immediate (long c) {
+  switch (c) {
+  case 1: return sexp_make_fixnum(17);
+  case 2: return SEXP_TRUE;
+  case 3: return sexp_make_character('a');
+  case 4: return SEXP_NULL;
+  case 5: return SEXP_ZERO;
+  default: return SEXP_FALSE;
+  }
+}
+static int immediate_code (sexp x) {
+  int c;
+  for (c = 1; c <= 5; c++) if (x == immediate(c)) return c;
+  return 0;
+}
 
 static int locate (sexp x, unsigned long *off) {
   sexp_heap h; int hi = 0;
@@ -56,7 +103,11 @@ static int in_free_chunk (sexp x) {
 static void fp (sexp x, int d, FILE *out) {
   int i;
   if (x == SEXP_FALSE) { fputs("#f", out); return; }
-  if (!sexp_pointerp(x)) { fputs("?imm", out); return; }
+  if (!sexp_pointerp(x)) {
+    if (immediate_code(x)) { if (d >= 6) fprintf(out, "i%d", immediate_code(x)); else fputs("#f", out); }
+    else fputs("?imm", out);
+    return;
+  }
   if (in_free_chunk(x)) { fputs("DANGLING", out); return; }
   if (sexp_ephemeronp(x)) {
     for (i = 0; i < nobs; i++)
@@ -69,6 +120,7 @@ static void fp (sexp x, int d, FILE *out) {
     return;
   }
   if (sexp_portp(x)) { fputs("p", out); return; }
+  if (sexp_filenop(x)) { fputs("f", out); return; }
   if (sexp_vectorp(x) && sexp_vector_length(x) >= 1 && sexp_fixnump(sexp_vector_ref(x, SEXP_ZERO))) {
     fprintf(out, "k%lx", (long)sexp_unbox_fixnum(sexp_vector_ref(x, SEXP_ZERO))); return;
   }
@@ -83,76 +135,140 @@ static void observe (FILE *out, unsigned long gcno) {
     fprintf(out, "e%lx=%d,", obs_id[i], sexp_brokenp(e) ? 1 : 0);
     fp(sexp_ephemeron_key(e), 6, out); fputs(",", out); fp(sexp_ephemeron_value(e), 6, out);
   }
-  fprintf(out, "|fds=%ld|gc=%lu", fd_count() - fd_base, gcno);
+  fprintf(out, "|fds=%ld|gc=%lu|own=", fd_count() - fd_base, gcno);
+  { int first = 1; char now[64];
+    for (i = 0; i < MAXSLOTS; i++) {
+      e = sexp_vector_ref(R, sexp_make_fixnum(i));
+      if (own_num[i] >= 0 && sexp_pointerp(e) && (sexp_portp(e) || sexp_filenop(e))) {
+        fd_link(own_num[i], now);
+        fprintf(out, "%s%d:%s", first ? "" : ",", i, strcmp(now, own_lnk[i]) ? "bad" : "ok");
+        first = 0;
+      }
+    }
+  }
 }
 
 static sexp slot (long i) { return (i >= 0 && i < MAXSLOTS) ? sexp_vector_ref(R, sexp_make_fixnum(i)) : SEXP_FALSE; }
-static void set_slot (long i, sexp x) { if (i >= 0 && i < MAXSLOTS) sexp_vector_set(R, sexp_make_fixnum(i), x); }
+static void set_slot (long i, sexp x) { if (i >= 0 && i < MAXSLOTS) { sexp_vector_set(R, sexp_make_fixnum(i), x); own_num[i] = -1; own_pair[i] = -1; } }
 static void record (long id, sexp x) {
   if (id < MAXIDS) addr_heap[id] = locate(x, &addr_off[id]);
 }
 
+/* write a line through the output port, read it back through the input port */
+static const char* transfer (sexp in, sexp o, int n) {
+  char msg[32], got[64]; int k = 0, c; struct pollfd pf;
+  if (!sexp_port_openp(in) || !sexp_port_openp(o)) return "Zbad:port-closed";
+  snprintf(msg, sizeof msg, "z%d\n", n);
+  sexp_write_string(ctx, msg, o);
+  sexp_flush_forced(ctx, o);
+  if (sexp_port_offset(in) >= sexp_port_size(in)) {         /* nothing buffered: is there anything to read? */
+    pf.fd = sexp_port_fileno(in); pf.events = POLLIN; pf.revents = 0;
+    if (poll(&pf, 1, 300) <= 0 || !(pf.revents & POLLIN)) return "Zbad:nothing-to-read";
+  }
+  while (k < 60) {
+    c = sexp_read_char(ctx, in);
+    if (c == EOF || c < 0) return "Zbad:eof";
+    got[k++] = (char)c;
+    if (c == '\n') break;
+  }
+  got[k] = 0;
+  return strcmp(got, msg) ? "Zbad:other-data" : "Zok";
+}
+
 static int run_history (char *ops, FILE *out) {
-  char *save = NULL, *tok; long a[4]; int na, first = 1, i; char kind; sexp x; unsigned long gcno;
+  char *save = NULL, *tok; long a[4]; int na, first = 1, i, nop = 0; char name[8]; sexp x, y; unsigned long gcno;
+  if (!strncmp(ops, "N", 1) && (ops[1] == ';' || !ops[1])) new_context();
   for (i = 0; i < MAXSLOTS; i++) set_slot(i, SEXP_FALSE);
   for (i = 0; i < MAXOBS; i++) sexp_vector_set(OBS, sexp_make_fixnum(i), SEXP_FALSE);
-  nobs = 0; nids = 0;
+  nobs = 0; nids = 0; npairs = 0; zn = 0;
   sexp_gc(ctx, NULL);           /* everything of the previous history is gone: one coalesced free chunk behind the roots */
   fd_base = fd_count();
-  for (tok = strtok_r(ops, ";", &save); tok; tok = strtok_r(NULL, ";", &save)) {
-    char *p = tok + 1;
-    kind = tok[0]; na = 0;
+  for (tok = strtok_r(ops, ";", &save); tok; tok = strtok_r(NULL, ";", &save), nop++) {
+    char *p = tok;
+    for (i = 0; *p && *p != ',' && i < 7; ) name[i++] = *p++;
+    name[i] = 0; na = 0;
     while (*p == ',' && na < 4) a[na++] = strtol(p + 1, &p, 10);
-    switch (kind) {
-    case 'K': case 'H':
+#define OP(s) (!strcmp(name, s))
+    if (OP("N")) {
+      if (nop != 0) return 0;
+    } else if (OP("K") || OP("H")) {
       x = sexp_make_vector(ctx, SEXP_ONE, SEXP_FALSE);
       if (sexp_exceptionp(x)) return 0;
       nids++; sexp_vector_set(x, SEXP_ZERO, sexp_make_fixnum(nids)); record(nids, x); set_slot(a[0], x);
-      break;
-    case 'C':
+    } else if (OP("I")) {
+      set_slot(a[0], immediate(a[1]));
+    } else if (OP("C")) {
       x = sexp_cons(ctx, slot(a[1]), slot(a[2]));
       if (sexp_exceptionp(x)) return 0;
       nids++; record(nids, x); set_slot(a[0], x);
-      break;
-    case 'E':
+    } else if (OP("E")) {
       x = sexp_make_ephemeron(ctx, slot(a[1]), slot(a[2]));
       if (sexp_exceptionp(x) || nobs >= MAXOBS) return 0;
       nids++; record(nids, x); set_slot(a[0], x);
       obs_id[nobs] = nids; sexp_vector_set(OBS, sexp_make_fixnum(nobs), x); nobs++;
-      break;
-    case 'B':                     /* a big block of a[1] slots (dropped later: a large free chunk in the middle of the heap) */
+    } else if (OP("B")) {           /* a big block of a[1] slots (dropped later: a large free chunk in the middle of the heap) */
       x = sexp_make_vector(ctx, sexp_make_fixnum(na > 1 && a[1] > 0 ? a[1] : 1), SEXP_FALSE);
       if (sexp_exceptionp(x)) return 0;
       nids++; sexp_vector_set(x, SEXP_ZERO, sexp_make_fixnum(nids)); record(nids, x); set_slot(a[0], x);
-      break;
-    case 'O': {                   /* (open-input-file "/dev/null"): a stream port owning a descriptor */
+    } else if (OP("O")) {           /* (open-input-file "/dev/null"): a stream port owning a descriptor */
       FILE *f = fopen("/dev/null", "r");
       if (!f) return 0;
       x = sexp_make_input_port(ctx, f, SEXP_FALSE);
       if (sexp_exceptionp(x)) return 0;
-      nids++; record(nids, x); set_slot(a[0], x);
-      break; }
-    case 'D': set_slot(a[0], SEXP_FALSE); break;
-    case 'G':
+      nids++; record(nids, x); set_slot(a[0], x); set_owner(a[0], fileno(f), -1);
+    } else if (OP("F")) {           /* (open "/dev/null" open/read): a fileno object owning a descriptor */
+      int fd = open("/dev/null", O_RDONLY);
+      if (fd < 0) return 0;
+      x = sexp_make_fileno(ctx, sexp_make_fixnum(fd), SEXP_FALSE);
+      if (!sexp_filenop(x)) return 0;
+      nids++; record(nids, x); set_slot(a[0], x); set_owner(a[0], fd, -1);
+    } else if (OP("S") || OP("Q")) { /* socketpair / pipe: two fileno objects */
+      int fds[2];
+      if ((OP("S") ? socketpair(AF_UNIX, SOCK_STREAM, 0, fds) : pipe(fds)) != 0) return 0;
+      x = sexp_make_fileno(ctx, sexp_make_fixnum(fds[0]), SEXP_FALSE);
+      if (!sexp_filenop(x)) return 0;
+      nids++; record(nids, x); set_slot(a[0], x); set_owner(a[0], fds[0], 2 * npairs);
+      y = sexp_make_fileno(ctx, sexp_make_fixnum(fds[1]), SEXP_FALSE);
+      if (!sexp_filenop(y)) return 0;
+      nids++; record(nids, y); set_slot(a[1], y); set_owner(a[1], fds[1], 2 * npairs + 1);
+      npairs++;
+    } else if (OP("P") || OP("W") || OP("PS") || OP("WS")) {
+      sexp f = slot(a[1]); int pr = (a[1] >= 0 && a[1] < MAXSLOTS) ? own_pair[a[1]] : -1;
+      if (sexp_pointerp(f) && sexp_filenop(f)) {
+        sexp sh = name[1] == 'S' ? SEXP_TRUE : SEXP_FALSE;
+        x = name[0] == 'P' ? sexp_open_input_file_descriptor(ctx, NULL, 2, f, sh) : sexp_open_output_file_descriptor(ctx, NULL, 2, f, sh);
+        if (sexp_exceptionp(x)) return 0;
+        nids++; record(nids, x); set_slot(a[0], x); set_owner(a[0], sexp_fileno_fd(f), pr);
+      }
+    } else if (OP("X") || OP("XI") || OP("XO")) {
+      x = slot(a[0]);
+      if (sexp_pointerp(x) && sexp_portp(x)) sexp_close_port(ctx, x);
+    } else if (OP("Z")) {
+      sexp in = slot(a[0]), o = slot(a[1]);
+      if (!first) fputs("/", out);
+      first = 0; zn++;
+      if (sexp_pointerp(in) && sexp_iportp(in) && sexp_pointerp(o) && sexp_oportp(o) && a[0] < MAXSLOTS && a[1] < MAXSLOTS
+          && own_pair[a[0]] >= 0 && own_pair[a[1]] >= 0 && (own_pair[a[0]] ^ own_pair[a[1]]) == 1)
+        fputs(transfer(in, o, zn), out);
+      else
+        fputs("Zskip", out);
+    } else if (OP("D")) {
+      set_slot(a[0], SEXP_FALSE);
+    } else if (OP("G")) {
       gcno = (unsigned long)sexp_context_gc_count(ctx);     /* the number of the first of the two collections */
       sexp_gc(ctx, NULL); sexp_gc(ctx, NULL);
       if (!first) fputs("/", out);
       first = 0;
       observe(out, gcno);
-      break;
-    default: return 0;
-    }
+    } else return 0;
   }
   return 1;
 }
 
 int main (int argc, char **argv) {
   static char line[1 << 20]; long n = 0, id; char *sp; int ok;
-  unsigned long size = argc > 1 ? strtoul(argv[1], NULL, 0) : (1UL << 20);
-  ctx = sexp_make_context(NULL, size, 0);
-  if (!ctx || sexp_exceptionp(ctx)) { fprintf(stderr, "no context\n"); return 2; }
-  R = sexp_make_vector(ctx, sexp_make_fixnum(MAXSLOTS), SEXP_FALSE); sexp_preserve_object(ctx, R);
-  OBS = sexp_make_vector(ctx, sexp_make_fixnum(MAXOBS), SEXP_FALSE); sexp_preserve_object(ctx, OBS);
+  ctx_size = argc > 1 ? strtoul(argv[1], NULL, 0) : (1UL << 20);
+  new_context();
   while (fgets(line, sizeof line, stdin)) {
     line[strcspn(line, "\n")] = 0;
     if (!line[0]) continue;
